@@ -107,6 +107,8 @@ def Fs.apply (fs : Fs) : FsOp → Except Errno Fs
      | none => .error .enoent
      | some n =>
        if !fs.dirExists (parentOf b) then .error .enoent
+       -- a directory is only replaced by a directory (the program renames files only: "Is a directory")
+       else if (match fs.lookup b, n with | some (.dir _), .dir _ => false | some (.dir _), _ => true | _, _ => false) then .error .eisdir
        else .ok ((fs.erase a).set b n))
   | .unlink p =>
     (match fs.lookup p with
